@@ -4,6 +4,7 @@ package eng
 // building SSA; resolving contract blocks to SSA functions.
 
 import (
+	"time"
 	"fmt"
 	"go/token"
 	"go/types"
@@ -46,6 +47,7 @@ type Engine struct {
 	nfresh    int
 	Warnings  []string
 	Fuel      int
+	Grace     time.Duration // extra time for cvc5 once all z3 instances answered unknown
 	ceCache   map[string]map[string]any
 	HypFuelFull bool
 	NoPrune   bool
@@ -70,7 +72,7 @@ func Load(cfg Config) (*Engine, error) {
 	e := &Engine{Cfg: cfg, Pkgs: map[string]*packages.Package{}, SSAPkgs: map[string]*ssa.Package{}, Sets: map[string]*ContractSet{},
 		Sorts: NewSortCtx(), Contracts: map[*ssa.Package]map[*ssa.Function]*FuncContract{}, ByKey: map[string]*FuncContract{},
 		Lemmas: map[string]*FuncContract{}, FuncOf: map[*FuncContract]*ssa.Function{}, PkgOf: map[*FuncContract]*ssa.Package{},
-		globalsInit: map[*ssa.Global]*Term{}}
+		globalsInit: map[*ssa.Global]*Term{}, Grace: 2 * time.Second}
 	e.Defs = newDefs(e)
 	overlay := map[string][]byte{}
 	var patterns []string
